@@ -73,7 +73,7 @@ func (f *frame) ReadFrom(r io.Reader) (int64, error) {
 	} else {
 		f.Data = f.Data[:f.header.DataLen]
 	}
-	m, err := r.Read(f.Data)
+	m, err := io.ReadFull(r, f.Data)
 	switch {
 	case err != nil:
 		return n + int64(m), err
